@@ -24,12 +24,21 @@ THEOREMS = [
     "equalise_spec",
     "equalise_max_attained",
     "equalise_swap_safe",
+    "swap_spec",
+    "convert_carries_cutoff",
+    "pair_action_invariant",
+    "pair_history_invariant",
 ]
 
 RULE = ("random TFIM graphs (2..6 spins, chain/ring/chord, J of both signs, dyadic Gamma, h zero and non-zero, beta 1/2..16) "
         "started with cutoff 1, 2, 3, nvars or another tiny value, under five update mixes (plain, RVB, heat-bath, RVB+heat-bath, "
         "split single_* steps); generic samplers on ONE spin (initial cutoff 1) and on 2..5 spins with/without loop updates and "
         "heat-bath, via timestep and via its parts; tempering containers (serial and rayon) with replicas of different cutoffs. "
+        "Histories on pairs of samplers (Ising<->Ising, generic<->generic) mixing time steps with the raw public "
+        "swap_manager_and_state in both call directions (unequal cutoffs; the partner holding the larger cutoff freshly built / after a "
+        "growing step / after a non-growing step), set_cutoff upwards, a rebuilt partner, and into_qmc() after k steps followed by more "
+        "steps of the converted sampler; the oracle runs after EVERY public call per sampler object (cutoff never decreases, cutoff >= n, "
+        "container length <= cutoff, swap exchanges n, conversion keeps n and the cutoff). "
         "After every real step one `step` case (prev cutoff, prev container length, n -> cutoff, container length) and one `sweep` "
         "case (slot occupancy before/after) are compared with the model rule. Non-trivial = the cutoff grew or n > 0 "
         "(tempering: replicas had different cutoffs); distinct = distinct case line.")
